@@ -474,14 +474,21 @@ func x13X(name string, pv ...interface{}) x13Mut {
 }
 
 // x13PickCombo chooses 2-3 distinct single mutations at unrelated points.
-func x13PickCombo(rng *rand.Rand, muts []x13Mut) []x13Mut {
+// Most combinations draw only mutations that validation accepts on their own (ok),
+// otherwise nearly every triple would be rejected and the case would be trivial.
+func x13PickCombo(rng *rand.Rand, muts []x13Mut, ok func(i int) bool) []x13Mut {
 	if len(muts) == 0 {
 		return nil
 	}
 	n := 2 + rng.Intn(2)
+	onlyAccepted := rng.Intn(100) < 85
 	var out []x13Mut
-	for tries := 0; len(out) < n && tries < 20; tries++ {
-		m := muts[rng.Intn(len(muts))]
+	for tries := 0; len(out) < n && tries < 40; tries++ {
+		idx := rng.Intn(len(muts))
+		if onlyAccepted && !ok(idx) {
+			continue
+		}
+		m := muts[idx]
 		clash := false
 		for _, o := range out {
 			a, b := o.Path.String(), m.Path.String()
